@@ -95,9 +95,15 @@ def replay(job, args, stock=False, timeout=120):
     return ("error", (err or out)[-1500:])
 
 
-def collect_jobs(mod, tier, only=None):
+def _fn_of(job):
+    return getattr(importlib.import_module(job["module"]), job["fn"], None)
+
+
+def collect_jobs(mod0, tier, only=None):
     jobs = []
-    for name, fn in vars(mod).items():
+    # a property module may name further harness modules (e.g. a gate-thread part imported without the pure-Python stdlib)
+    mods = [mod0] + [importlib.import_module(m) for m in getattr(mod0, "EXTRA_MODULES", [])]
+    for mod, name, fn in [(m, n, f) for m in mods for n, f in vars(m).items()]:
         spec = getattr(fn, "__harness__", None)
         if spec is None or inspect.getmodule(fn) is not mod:
             continue
@@ -114,6 +120,7 @@ def collect_jobs(mod, tier, only=None):
             if "per_path" in meta:
                 job["per_path"] = meta["per_path"]
             jobs.append(job)
+    mod = mod0
     if hasattr(mod, "JOBS"):
         for j in mod.JOBS(tier):
             j.setdefault("module", mod.__name__)
@@ -181,7 +188,7 @@ def main(argv=None):
     replays_done = 0
     # vacuity guard: required coverage labels
     for r in by_status.get("CONFIRMED", []):
-        fn = getattr(mod, r["job"]["fn"], None)
+        fn = _fn_of(r["job"])
         spec = getattr(fn, "__harness__", None)
         need = set(spec.cover) if spec else set(r["job"].get("cover", []))
         miss = need - set(r.get("covered", []))
@@ -210,7 +217,7 @@ def main(argv=None):
             v, detail = replay(job, args)
             replays_done += 1
             if v in ("violated", "hang"):
-                fn = getattr(mod, job["fn"])
+                fn = _fn_of(job)
                 if fn.__harness__.stock:
                     v2, detail2 = replay(job, args, stock=True)
                     replays_done += 1
@@ -235,7 +242,7 @@ def main(argv=None):
     for r in by_status.get("CONFIRMED", []):
         if r["status"] != "CONFIRMED" or r["job"].get("engine", "xh") != "xh":
             continue
-        fn = getattr(mod, r["job"]["fn"])
+        fn = _fn_of(r["job"])
         spec = fn.__harness__
         d = sample_args(spec, r["job"]["inst"], rng)
         if d is None:
